@@ -247,6 +247,21 @@ register(
     "DESIGN.md §3 C15",
 )
 
+register(
+    "C06",
+    "bounded-exhaustive enumeration over generated free 3-D structures x EVERY boundary-grid subset up to 3 x retained modes {0,1,all} x EVERY permutation of the boundary grids x b-set first/last x reference-DOF choice x output systems {basic, rotated, cylindrical, spherical}^nb x unit conversions x reorder, plus grounded / moved-geometry variants; cbtf over b-set layouts x damping x acceleration forms x frequencies incl. 0 Hz x cache histories; cgmass, cbconvert, uset_convert, cbreorder over option grids - against an independent structure generator, textbook Craig-Bampton reduction and the defining equations",
+    "Every model/option combination of the bounded space is reduced independently to Craig-Bampton form and run "
+    "through cbcheck; the returned matrices, uset, three rigid-body mode sets, implied 6x6 mass/cg, K*rb, fixed-base "
+    "frequencies and modal effective mass (+ boundary residual = total mass) are compared with the underlying "
+    "structure; grounding and geometry errors must appear exactly as the structure's grounding force / moved "
+    "geometry; cbtf must satisfy the full equations with the enforced acceleration for every call of every cache "
+    "history; conversions and reorderings must be undone by their inverses and leave spectrum, mass properties and "
+    "recovered responses unchanged.",
+    "Trusted: vf/ref/cb_ref.py (structure generator, rigid maps, CB reduction); the printed report is not parsed; "
+    "3-5 node structures.",
+    "DESIGN.md §3 C06",
+)
+
 
 def build():
     checks = []
